@@ -347,6 +347,12 @@ func runCheck(root, prop, tier string, makeBaseline, verbose, keep bool, onlyFn 
 		toolErr = true
 	}
 	for _, o := range coverBad {
+		if violations > 0 {
+			// a failed clause is assumed after it has been reported, which can
+			// make the rest of that function unreachable
+			lines = append(lines, fmt.Sprintf("NOTE property=%s cover %s unreachable after a reported violation", prop, o.Key))
+			continue
+		}
 		lines = append(lines, fmt.Sprintf("TOOL-ERROR property=%s cover %s unreachable: contradictory assumptions", prop, o.Key))
 		toolErr = true
 	}
